@@ -107,11 +107,18 @@ def rule_a(prog, rep):
     # recursion argument: the tail (remaining_path advanced before the recursive call), and the terminal node collects
     b = Bindings(crate, f)
     rec = crate.calls(f, lambda c: c.endswith('subscribers::add_matches'))
-    adv = [nd for nd, a in walk(loops[0]['body']) if nd.get('k') == 'assign' and nd['l'].get('name') == 'remaining_path']
-    adv_ok = len(adv) == 1 and adv[0]['r'].get('k') in ('ref',) and 'index' in str(adv[0]['r'])[:80] and \
-        any(x.get('k') == 'lit' and x['v'].get('v') == 1 for x, _ in walk(adv[0]['r']))
+    # the advancing assignment `<tail> = &<tail>[1..]` (the local is identified by this shape, not by its name)
+    def _self_tail(nd):
+        r = nd['r']
+        if nd['l'].get('k') != 'path' or nd['l'].get('res') != 'local' or r.get('k') != 'ref' or r['e'].get('k') != 'index':
+            return False
+        base_ = r['e']['e']
+        return base_.get('k') == 'path' and base_.get('id') == nd['l'].get('id') and \
+            any(x.get('k') == 'lit' and x['v'].get('v') == 1 for x, _ in walk(r['e'].get('i', {})))
+    adv = [nd for nd, a in walk(loops[0]['body']) if nd.get('k') == 'assign' and _self_tail(nd)]
+    adv_ok = len(adv) == 1 and 'param(remaining_path)' in ''.join(b.origins(adv[0]['l']))
     first_stmt = loops[0]['body']['stmts'][0] if loops[0]['body'].get('stmts') else None
-    if len(rec) == 1 and adv_ok and first_stmt is adv[0] and rec[0][0]['args'][1].get('name') == 'remaining_path':
+    if len(rec) == 1 and adv_ok and first_stmt is adv[0] and rec[0][0]['args'][1].get('id') == adv[0]['l'].get('id'):
         rep.ok('C04.a', 'add_matches:tail', loc(f, rec[0][0]), 'recursion on the `?` child continues with the tail of the key')
     else:
         rep.violation('C04.a', 'add_matches:tail', f.loc, 'the `?` recursion does not continue with the tail of the key',
@@ -175,6 +182,14 @@ def _arm_facts(crate, f, arm, recurse_names):
     return facts
 
 
+def _is_tail_init(e):
+    """`&<path>[1..]`"""
+    if not isinstance(e, dict) or e.get('k') != 'ref' or e['e'].get('k') != 'index':
+        return False
+    i = e['e'].get('i', {})
+    return any(x.get('k') == 'lit' and x['v'].get('v') == 1 for x, _ in walk(i)) and i.get('k') != 'lit'
+
+
 def rule_b(prog, rep):
     rep.rule('C04.b', 'T6', 'sibling agreement pget <-> pdelete: per KeySegment variant the two store traversals agree on the '
              'recursion facts: Regular -> child lookup of that segment, recursion with the tail; Wildcard -> all children, '
@@ -186,11 +201,12 @@ def rule_b(prog, rep):
     fdc = crate.fn(f'{STORE}::ndelete_child_matches')
     mc, md = _keyseg_match(crate, fc), _keyseg_match(crate, fd)
     # the tail binding: `let tail = &path[1..]`
+    tail_id = {}
     for f, pname in ((fc, 'remaining_path'), (fd, 'relative_path')):
         b = Bindings(crate, f)
-        tails = [nd for nd, a in crate.walk_fn(f) if nd.get('k') == 'let' and nd['pat'].get('name') == 'tail']
-        good = len(tails) == 1 and any(x.get('k') == 'lit' and x['v'].get('v') == 1 for x, _ in walk(tails[0]['init'])) and \
-            f'param({pname})' in ''.join(b.origins(tails[0]['init']))
+        tails = [nd for nd, a in crate.walk_fn(f) if nd.get('k') == 'let' and nd['pat'].get('k') == 'bind' and _is_tail_init(nd.get('init'))]
+        good = len(tails) == 1 and f'param({pname})' in ''.join(b.origins(tails[0]['init']))
+        tail_id[f.path] = tails[0]['pat'].get('id') if tails else None
         if good:
             rep.ok('C04.b', f'{short(f.path)}:tail', loc(f, tails[0]), 'tail = &path[1..]')
         else:
@@ -210,7 +226,7 @@ def rule_b(prog, rep):
         def passes_tail(f, b, arm, callee_suffix):
             for nd, anc in walk(arm['body']):
                 if nd.get('k') == 'call' and callee(nd).endswith(callee_suffix):
-                    return any(a.get('k') == 'path' and a.get('name') == 'tail' for a in nd['args'])
+                    return any(a.get('k') == 'path' and a.get('id') is not None and a.get('id') == tail_id.get(f.path) for a in nd['args'])
             return None
         if v in ('Regular', 'Wildcard'):
             if passes_tail(fc, bc, ac, 'Store::ncollect_matches') is not True:
@@ -399,4 +415,144 @@ def rule_e(prog, rep):
         rep.violation('C04.e', 'KeySegment::parse', kp.loc, 'does not split on "/" and convert each segment', key='C04.e/parse')
 
 
-RULES = [('C04.e', rule_e), ('C04.a', rule_a), ('C04.b', rule_b), ('C04.c', rule_c), ('C04.d', rule_d)]
+# ------------------------------------------------------------------ C04.f pdelete removes only what the relation matched
+NODE = 'store::Node::<K, V>'
+SHRINK_CALLS = ('remove', 'remove_entry', 'retain', 'clear', 'drain', 'take', 'extract_if', 'pop_first', 'pop_last')
+# removal primitives of Node and where the delete traversals may use them
+PRIMS = {'trim': 'removes children that hold neither a value nor children',
+         'take_value': 'the value of the node the pattern ends at',
+         'drop_children': 'the whole subtree below a trailing `#` (after it was collected)',
+         'strip': 'the $SYS subtree, export only'}
+
+
+def _shrinks(crate, f):
+    """does this function remove nodes / values by itself (not through another Node method)?"""
+    b = Bindings(crate, f)
+    for nd, anc in crate.walk_fn(f):
+        k = nd.get('k')
+        if k == 'assign' and nd['l'].get('k') == 'field' and nd['l']['name'] in ('tree', 'value'):
+            r = nd['r']
+            if r.get('k') == 'path' and str(r.get('path') or r.get('ctor_of') or '').endswith('None'):
+                return True
+        if k == 'call' and short(callee(nd)) in SHRINK_CALLS and nd['args']:
+            o = b.origins(nd['args'][0])
+            if any('.tree' in x or '.value' in x for x in o):
+                return True
+    return False
+
+
+def rule_f(prog, rep):
+    rep.rule('C04.f', 'T1', 'pattern delete removes only what the relation matched: in the delete traversals the only operations '
+             'that remove a value or a node are take_value() at the end of the pattern, drop_children() in the trailing-`#` arm '
+             'and trim(); trim() removes exactly the children with no value and no children')
+    crate = prog.crate(WB)
+    node_fns = [f for f in crate.top_fns() if f.path.startswith(NODE + '::')]
+    if len(node_fns) < 10:
+        raise AnchorMissing(f'methods of {NODE} ({len(node_fns)})')
+    shr = {short(f.path): f for f in node_fns if _shrinks(crate, f)}
+    n = 0
+    trav = [crate.fn(f'{STORE}::{x}') for x in ('ndelete_matches', 'ndelete_child_matches', 'ncollect_matches')]
+    for f in trav:
+        b = Bindings(crate, f)
+        name = short(f.path)
+        for nd, anc in crate.walk_fn(f):
+            if nd.get('k') == 'assign' and nd['l'].get('k') == 'field' and nd['l']['name'] in ('tree', 'value') and \
+                    'Node' in str(nd['l'].get('base_ty')):
+                n += 1
+                rep.violation('C04.f', f'{name}:direct-write', loc(f, nd), f'writes node.{nd["l"]["name"]} directly',
+                              key=f'C04.f/{name}/direct-write/{nd["l"]["name"]}')
+                continue
+            if nd.get('k') != 'call' or not nd['args']:
+                continue
+            c = callee(nd)
+            sh = short(c)
+            on_node = c.startswith(NODE + '::')
+            raw = sh in SHRINK_CALLS and any('param(node)' in x and ('.tree' in x or '.value' in x or x.endswith(')')) for x in b.origins(nd['args'][0])) \
+                and ('HashMap' in c or 'Option' in c or 'BTreeMap' in c)
+            if raw:
+                n += 1
+                rep.violation('C04.f', f'{name}:{sh}', loc(f, nd), f'removes from the tree directly with {c}',
+                              key=f'C04.f/{name}/raw/{sh}')
+                continue
+            if not on_node or sh not in shr:
+                continue
+            n += 1
+            g = [it for it in guards(anc + (nd,))]
+            if sh == 'trim':
+                rep.ok('C04.f', f'{name}:trim', loc(f, nd), PRIMS['trim'])
+            elif sh == 'take_value':
+                at_end = name == 'ndelete_matches' and any(
+                    it[0] == 'if' and it[2] is True and it[1].get('k') == 'call' and short(callee(it[1])) == 'is_empty' and
+                    b.origins(it[1]['args'][0]) == {'param(relative_path)'} for it in g)
+                if at_end:
+                    rep.ok('C04.f', f'{name}:take_value', loc(f, nd), 'only when the pattern is exhausted at this node')
+                else:
+                    rep.violation('C04.f', f'{name}:take_value', loc(f, nd), 'a value is removed at a node the pattern does not end at',
+                                  key=f'C04.f/{name}/take_value')
+            elif sh == 'drop_children':
+                in_arm = name == 'ndelete_matches' and any(it[0] == 'match' and {short(v) for v in pat_variants(it[2]['pat'])} == {'MultiWildcard'}
+                                                            for it in g)
+                if in_arm:
+                    rep.ok('C04.f', f'{name}:drop_children', loc(f, nd), 'only in the trailing-`#` arm')
+                else:
+                    rep.violation('C04.f', f'{name}:drop_children', loc(f, nd), 'a subtree is dropped outside the trailing-`#` arm',
+                                  key=f'C04.f/{name}/drop_children')
+            else:
+                rep.violation('C04.f', f'{name}:{sh}', loc(f, nd), f'Node::{sh} removes nodes / values and is not one of the reviewed '
+                              f'removal operations of a pattern delete ({sorted(PRIMS)})', key=f'C04.f/{name}/unreviewed/{sh}',
+                              expected='take_value at the pattern end, drop_children below a trailing #, trim')
+    rep.floor('C04.f', n, 4, 'removal operations in the delete traversals')
+    # ncollect_matches (the query) removes nothing: covered by the loop above (it takes `node: &StoreNode`)
+    # trim / is_obsolete / is_empty
+    tr = crate.fn(f'{NODE}::trim')
+    cls = crate.closures_of(tr)
+    ret = [nd for nd, a in crate.walk_fn(tr) if nd.get('k') == 'call' and short(callee(nd)) == 'retain']
+    ok_trim = False
+    if len(ret) == 1 and len(cls) == 1:
+        cl = cls[0]
+        cb = Bindings(crate, cl) if False else Bindings(crate, tr)
+        body = cl.hir
+        tail = body.get('tail') if body.get('k') == 'block' else body
+        obs = [nd for nd, a in walk(body) if nd.get('k') == 'call' and callee(nd) == f'{NODE}::is_obsolete']
+        # the closure returns the negation of is_obsolete() of the visited child
+        if tail is not None and len(obs) == 1:
+            t = tail
+            neg = False
+            while t.get('k') == 'unary' and t.get('op') == 'Not':
+                neg = not neg
+                t = t['e']
+            to = cb.origins(t) if t.get('k') == 'path' else ({f'call({callee(t)})'} if t.get('k') == 'call' else set())
+            ok_trim = neg and any('is_obsolete' in x for x in to) and \
+                all(str(x).startswith('param[1]') or str(x).startswith('param(') for x in cb.origins(obs[0]['args'][0]))
+    io = crate.fn(f'{NODE}::is_obsolete')
+    t = io.hir.get('tail') if io.hir.get('k') == 'block' and not io.hir.get('stmts') else None
+    ib = Bindings(crate, io)
+
+    def _is_value_none(e):
+        return e.get('k') == 'call' and short(callee(e)) == 'is_none' and ib.origins(e['args'][0]) == {'param(self).value'}
+
+    def _is_empty_self(e):
+        return e.get('k') == 'call' and callee(e) == f'{NODE}::is_empty' and ib.origins(e['args'][0]) == {'param(self)'}
+    ok_obs = bool(t) and t.get('k') == 'binary' and t.get('op') == 'And' and \
+        ((_is_value_none(t['l']) and _is_empty_self(t['r'])) or (_is_value_none(t['r']) and _is_empty_self(t['l'])))
+    ie = crate.fn(f'{NODE}::is_empty')
+    eb = Bindings(crate, ie)
+    calls = [short(callee(nd)) for nd, a in crate.walk_fn(ie) if nd.get('k') == 'call']
+    lits = [nd['v'].get('v') for nd, a in crate.walk_fn(ie) if nd.get('k') == 'lit']
+    flds = {nd['name'] for nd, a in crate.walk_fn(ie) if nd.get('k') == 'field'}
+    ok_empty = flds == {'tree'} and ((('unwrap_or' in calls and lits == [True]) or 'is_none_or' in calls) and
+                                       any(nd.get('k') == 'path' and str(nd.get('path')).endswith('::is_empty') for nd, a in crate.walk_fn(ie))
+                                       or False)
+    for nm, okv, f_, what in (('trim', ok_trim, tr, 'retain(|_, child| !child.is_obsolete())'),
+                              ('is_obsolete', ok_obs, io, 'value.is_none() && is_empty()'),
+                              ('is_empty', ok_empty, ie, 'tree.map(is_empty).unwrap_or(true)')):
+        if okv:
+            rep.ok('C04.f', f'Node::{nm}', f_.loc, what)
+        else:
+            rep.violation('C04.f', f'Node::{nm}', f_.loc, f'is not `{what}`: pruning would remove nodes that still hold a value or '
+                          'children (or keep empty ones)', key=f'C04.f/Node/{nm}')
+
+
+
+
+RULES = [('C04.f', rule_f), ('C04.e', rule_e), ('C04.a', rule_a), ('C04.b', rule_b), ('C04.c', rule_c), ('C04.d', rule_d)]
